@@ -26,6 +26,7 @@ CHUNKS = [0, 1, 7, 64]
 def shard_env(shard, nshards, tier):
     env = {"NUMBA_THREADING_LAYER": "omp" if shard % 2 == 0 else "workqueue", "NUMBA_NUM_THREADS": "16"}
     env["VMON_AFFINITY"] = ["all", "2", "1"][(shard // 2) % 3]
+    env["VMON_SWEEP_BUDGET_S"] = "25" if tier == "quick" else "300"
     return env
 
 
@@ -314,7 +315,7 @@ def emulated_parallel(dispatcher, args, kwargs=None, nthreads=4, seed=0, yield_p
 
 
 # ----------------------------------------------------------------------------- the sweep
-def sweep(res, dispatcher, args, kwargs, reference, label, reps, compare, threads=THREADS, chunks=CHUNKS):
+def sweep(res, dispatcher, args, kwargs, reference, label, reps, compare, threads=THREADS, chunks=CHUNKS, budget_s=None):
     """Run the shipped kernel under many configurations; `compare(result, reference)` returns None or a
     message.  Returns the set of distinct result fingerprints."""
     import numba
@@ -324,26 +325,35 @@ def sweep(res, dispatcher, args, kwargs, reference, label, reps, compare, thread
     maxt = numba.config.NUMBA_NUM_THREADS
     bad = None
     runs = 0
-    for nt in threads:
-        if nt > maxt:
-            continue
+    # every workload is capped by operations AND by time: a (changed) kernel that needs seconds per call gets fewer
+    # configurations, ordered so that every thread count is met before repetitions are
+    import time as _time
+    budget_s = budget_s if budget_s is not None else float(os.environ.get("VMON_SWEEP_BUDGET_S", "25"))
+    t_start = _time.time()
+    configs = [(nt, ch, rep) for rep in range(reps) for ch in chunks for nt in threads if nt <= maxt]
+    truncated = False
+    for nt, ch, rep in configs:
+        if _time.time() - t_start > budget_s and runs >= len([t for t in threads if t <= maxt]):
+            truncated = True
+            break
         numba.set_num_threads(nt)
-        for ch in chunks:
-            numba.set_parallel_chunksize(ch)
-            for rep in range(reps):
-                out = dispatcher(*args, **(kwargs or {}))
-                runs += 1
-                outs = out if isinstance(out, tuple) else (out,)
-                fpv = fingerprint(*outs)
-                prints[fpv] = prints.get(fpv, 0) + 1
-                msg = compare(outs, reference)
-                if msg and bad is None:
-                    bad = (nt, ch, rep, msg)
+        numba.set_parallel_chunksize(ch)
+        out = dispatcher(*args, **(kwargs or {}))
+        runs += 1
+        outs = out if isinstance(out, tuple) else (out,)
+        fpv = fingerprint(*outs)
+        prints[fpv] = prints.get(fpv, 0) + 1
+        msg = compare(outs, reference)
+        if msg and bad is None:
+            bad = (nt, ch, rep, msg)
     numba.set_parallel_chunksize(0)
     numba.set_num_threads(maxt)
     res.count("schedule-runs", runs)
     res.tag(f"layer-{layer}", f"affinity-{aff}")
-    info = {"label": label, "layer": layer, "affinity": aff, "runs": runs, "distinct_results": len(prints)}
+    info = {"label": label, "layer": layer, "affinity": aff, "runs": runs, "distinct_results": len(prints),
+            "configurations_planned": len(configs), "truncated_by_time_budget": truncated}
+    if truncated:
+        res.tag("sweep-truncated-by-time-budget")
     if bad:
         nt, ch, rep, msg = bad
         res.violate("schedule-dependent-result",
@@ -444,7 +454,10 @@ def run_hist_kernel_case(case, ctx, res):
                             hazards=lost[:2])
                 break
     # 1. sweep of the shipped build
-    info = sweep(res, pu.hist2d, args, None, ref, label, reps=3 if not big else 15, compare=compare)
+    # chunk sizes relative to the problem size: a chunk size of 1 over millions of prange iterations only measures
+    # the scheduler (and takes minutes per call)
+    chunks = CHUNKS if n <= 5000 else [0, max(1, n // 4096), max(1, n // 256), max(1, n // 17)]
+    info = sweep(res, pu.hist2d, args, None, ref, label, reps=3 if not big else 15, compare=compare, chunks=chunks)
     info.update(prange_loops=cm["prange_loops"], hazards=len(cm["hazards"]), lost_update_hazards=len(lost))
     if lost and not res.violations:
         res.tag("unconfirmed-hazard")
